@@ -153,12 +153,59 @@ func runC11(r *mc.Run) {
 				match.Tcb.Tdx = nm
 			}
 			var before []world.Level
+			// in which way the levels listed before the matching one fail to match
+			beforeKind := 0
+			if lpos > 0 {
+				beforeKind = c.Choose("preceding-level-kind", 4)
+			}
 			for k := 0; k < lpos && k < 3; k++ {
 				// levels that do not match: one component above the platform's, each with a different non-UpToDate status
 				l := world.PlatformLevel(w.Plat, tee, world.Statuses[1+2*k])
-				nm := append([]world.Comp(nil), l.Tcb.Tdx...)
-				nm[2+k].Svn = int(tee[2+k]) + 1 + k
-				l.Tcb.Tdx = nm
+				switch beforeKind {
+				case 0:
+					nm := append([]world.Comp(nil), l.Tcb.Tdx...)
+					nm[2+k].Svn = int(tee[2+k]) + 1 + k
+					l.Tcb.Tdx = nm
+				case 1: // an EARLIER SGX component below the platform's, a LATER one above it
+					nm := append([]world.Comp(nil), l.Tcb.Sgx...)
+					if nm[k].Svn > 0 {
+						nm[k].Svn--
+					}
+					if nm[15-k].Svn < 255 {
+						nm[15-k].Svn++
+					} else {
+						// the component cannot go higher: fail the level in a TDX component instead
+						nt := append([]world.Comp(nil), l.Tcb.Tdx...)
+						nt[15].Svn = int(tee[15]) + 1
+						l.Tcb.Tdx = nt
+					}
+					l.Tcb.Sgx = nm
+				case 2: // every component below, the PCE SVN above (when it can be)
+					ns, nt := append([]world.Comp(nil), l.Tcb.Sgx...), append([]world.Comp(nil), l.Tcb.Tdx...)
+					for i := range ns {
+						if ns[i].Svn > 0 {
+							ns[i].Svn--
+						}
+					}
+					for i := 2; i < len(nt); i++ {
+						if nt[i].Svn > 0 {
+							nt[i].Svn--
+						}
+					}
+					l.Tcb.Sgx, l.Tcb.Tdx = ns, nt
+					if w.Plat.PCESVN < 65535 {
+						l.Tcb.Pcesvn = world.IntP(int(w.Plat.PCESVN) + 1)
+					} else {
+						nt[15].Svn = int(tee[15]) + 1
+					}
+				case 3: // an earlier TDX component below, a later one above
+					nt := append([]world.Comp(nil), l.Tcb.Tdx...)
+					if nt[2].Svn > 0 {
+						nt[2].Svn--
+					}
+					nt[9+k].Svn = int(tee[9+k]) + 1
+					l.Tcb.Tdx = nt
+				}
 				before = append(before, l)
 			}
 			lastDate := "2020-01-01T00:00:00Z"
